@@ -202,8 +202,8 @@ func VerifH11a() {
 			key := []string{"a", "b"}[nd.Choice("key", 2)]
 			a, b := both(func(side int) error { return p.store(side, t).Delete(ctx, key) })
 			sameClass(a, b, id+".Delete")
-		case 4: // Begin
-			if len(open) >= 1 {
+		case 4: // Begin (a second transaction may observe the first one's uncommitted writes)
+			if len(open) >= 2 {
 				nd.Assume(false)
 			}
 			level := model.TxIsoLevel(nd.Choice("level", 5)) // 4 = out of range: must behave alike
